@@ -252,6 +252,40 @@ pub struct ShardResult {
     pub failure: Option<FailureRec>,
     pub harness_error: Option<String>,
     pub wall_s: f64,
+    /// cases started (including skipped ones after a restart) — restart bookkeeping
+    #[serde(default)]
+    pub started: u64,
+}
+
+impl ShardResult {
+    /// Merge the result of a restarted shard segment into an accumulated one.
+    pub fn merge(mut self, other: ShardResult) -> ShardResult {
+        self.evals += other.evals;
+        self.cases += other.cases;
+        let mut keys: std::collections::BTreeSet<u64> = self.nontrivial_keys.iter().copied().collect();
+        keys.extend(other.nontrivial_keys.iter().copied());
+        self.nontrivial_keys = keys.into_iter().collect();
+        for (k, v) in other.labels {
+            *self.labels.entry(k).or_insert(0) += v;
+        }
+        for (k, v) in other.excluded_known {
+            *self.excluded_known.entry(k).or_insert(0) += v;
+        }
+        for smp in other.samples {
+            if self.samples.len() < 4 {
+                self.samples.push(smp);
+            }
+        }
+        if self.failure.is_none() {
+            self.failure = other.failure;
+        }
+        if self.harness_error.is_none() {
+            self.harness_error = other.harness_error;
+        }
+        self.wall_s += other.wall_s;
+        self.started = self.started.max(other.started);
+        self
+    }
 }
 
 pub trait DynSub: Send + Sync {
